@@ -195,7 +195,7 @@ theorem survivor_usable {s : State} (h : Reachable s) (op : Op) (s' : State) (r 
     (hstep : step s op = .ok (s', r)) :
     (∀ j, 0 < s'.ext j → s'.isLive j) ∧
     (∀ j k, s'.isLive j → Reach s'.heap j k → s'.isLive k) ∧
-    (∀ j n', j < s.next → op.target ≠ some j → s'.heap.get? j = some n' →
+    (∀ j n', j < s.next → targetOf s op ≠ some j → s'.heap.get? j = some n' →
       ∃ n, s.heap.get? j = some n ∧ n'.body = n.body ∧ n'.ud = n.ud) ∧
     (∀ j, j < s.next → s.isLive j → j ∉ r.dead → s'.isLive j) := by
   rcases step_spec s (reachable_inv h) op with ⟨why, hm⟩ | ⟨s1, r1, hst, hok⟩
